@@ -4,7 +4,7 @@
    model (cpu.max on cgroup v2, BE cgroup already at the target). *)
 From Coq Require Import List ZArith Bool Lia ZifyBool.
 From Verif Require Import C12.Model C12.Spec C12.Proofs_Lattice C12.Proofs_Steps C12.Proofs_Pass
-  C12.Proofs_Leveled C12.Proofs_Be.
+  C12.Proofs_Leveled C12.Proofs_Be C12.Proofs_Rec.
 Import ListNotations.
 Open Scope Z_scope.
 
@@ -156,6 +156,21 @@ Proof.
     + intros k _. unfold res. rewrite <- (be_apply_writes e st paths oldset newset Hb Hc Hnz). reflexivity.
 Qed.
 
+(* ---------- one recover call of the model: the whole property ---------- *)
+Lemma rec_batch_holds e st paths newset :
+  rec_hyps e (sfs st) paths newset = true -> coherent_st st ->
+  let res := rec_apply e st paths newset in
+  C12_batch e (sfs st) [rec_updaters paths newset] (snd res) (sfs (fst res)).
+Proof.
+  intros Hh Hc res. apply rec_hyps_rhyps in Hh. unfold C12_batch. cbn [concat]. rewrite app_nil_r.
+  split; [apply rec_prefix_valid; assumption|]. split; [|split].
+  - intros u Hu. unfold res. rewrite (rec_final e st paths newset Hh Hc).
+    unfold rec_updaters in Hu. apply in_map_iff in Hu. destruct Hu as [p [<- Hp]]. cbn [ukey uval].
+    apply inb_In in Hp. rewrite Hp. reflexivity.
+  - intros k _. unfold res. rewrite <- (rec_apply_writes e st paths newset Hh Hc). reflexivity.
+  - apply rec_no_redundant; assumption.
+Qed.
+
 (* ---------- histories ---------- *)
 Definition inv (e : env) (st : state) : Prop := validb e (sfs st) = true /\ coherent_st st.
 
@@ -163,6 +178,7 @@ Definition op_hyps (e : env) (st : state) (o : op) : Prop :=
   match o with
   | OBatch ls => hyps_ok e (sfs st) ls = true
   | OBe paths old new => be_hyps e (sfs st) paths (be_old (sfs st) paths old) new = true
+  | ORec paths new => rec_hyps e (sfs st) paths new = true
   | OExpire _ => True
   end.
 
@@ -173,17 +189,19 @@ Fixpoint hist_hyps (e : env) (st : state) (ops : list op) : Prop :=
   | o :: r => op_hyps e st o /\ hist_hyps e (fst (step_op e st o)) r
   end.
 
-(* histories of LeveledUpdateBatch calls and cache expiries that do not touch cpu.max on v2 *)
+(* histories of LeveledUpdateBatch calls, cache expiries and BE cpuset recoveries that do not
+   touch cpu.max on v2 *)
 Definition plain_op (e : env) (o : op) : Prop :=
   match o with
   | OBatch ls => noq_batch e ls
   | OExpire _ => True
+  | ORec _ _ => True
   | OBe _ _ _ => False
   end.
 
 Lemma step_inv e st o : inv e st -> op_hyps e st o -> inv e (fst (step_op e st o)).
 Proof.
-  intros [Hv Hc] Ho. destruct o as [ls|k|paths old new]; cbn [step_op op_hyps] in *.
+  intros [Hv Hc] Ho. destruct o as [ls|k|paths old new|paths new]; cbn [step_op op_hyps] in *.
   - apply hyps_ok_hyps in Ho. split.
     + apply leveled_valid_after; assumption.
     + apply leveled_coherent; assumption.
@@ -193,6 +211,9 @@ Proof.
     + split.
       * apply be_valid_after; assumption.
       * apply be_coherent; assumption.
+  - apply rec_hyps_rhyps in Ho. split.
+    + apply rec_valid_after; assumption.
+    + apply rec_coherent; assumption.
 Qed.
 
 Lemma run_hist_cons e st o r :
@@ -210,7 +231,7 @@ Proof.
   induction ops as [|o r IH]; intros st Hinv Hh; [reflexivity|].
   destruct Hh as [Ho Hr]. pose proof (step_inv e st o Hinv Ho) as Hinv'.
   specialize (IH _ Hinv' Hr). destruct Hinv as [Hv Hc].
-  rewrite run_hist_cons. destruct o as [ls|k|paths old new]; cbn [hist_code].
+  rewrite run_hist_cons. destruct o as [ls|k|paths old new|paths new]; cbn [hist_code].
   - cbn [op_hyps] in Ho. rewrite Ho.
     destruct (leveled_hard e st ls Ho Hc) as (H1 & H2 & H3). cbn [step_op] in *.
     pose proof (prop_code_soft e (sfs st) ls _ _ Hv H1 H2 H3) as Hs.
@@ -221,6 +242,9 @@ Proof.
     destruct (be_hard e st paths _ new Ho Hc) as (H1 & H2 & H3). cbn [step_op] in *.
     pose proof (prop_code_soft e (sfs st) [be_updaters paths new] _ _ Hv H1 H2 H3) as Hs.
     match goal with |- context [if ?c =? 0 then _ else _] => destruct (c =? 0) end; [exact IH|exact Hs].
+  - cbn [op_hyps] in Ho. rewrite Ho.
+    pose proof (rec_batch_holds e st paths new Ho Hc) as Hb. cbn [step_op] in *.
+    apply (prop_code_spec e (sfs st) [rec_updaters paths new] _ _ Hv) in Hb. rewrite Hb. cbn [Z.eqb]. exact IH.
 Qed.
 
 (* the whole property for histories that do not touch cpu.max on cgroup v2 *)
@@ -232,12 +256,15 @@ Proof.
   destruct Hh as [Ho Hr]. pose proof (step_inv e st o Hinv Ho) as Hinv'.
   inversion Hp as [|? ? Hpo Hpr]. subst.
   specialize (IH _ Hinv' Hr Hpr). destruct Hinv as [Hv Hc].
-  rewrite run_hist_cons. destruct o as [ls|k|paths old new]; cbn [hist_code].
+  rewrite run_hist_cons. destruct o as [ls|k|paths old new|paths new]; cbn [hist_code].
   - cbn [op_hyps plain_op] in *. rewrite Ho.
     pose proof (leveled_batch_holds e st ls Ho Hc Hpo) as Hb. cbn [step_op] in *.
     apply (prop_code_spec e (sfs st) ls _ _ Hv) in Hb. rewrite Hb. cbn [Z.eqb]. exact IH.
   - exact IH.
   - contradiction.
+  - cbn [op_hyps] in Ho. rewrite Ho.
+    pose proof (rec_batch_holds e st paths new Ho Hc) as Hb. cbn [step_op] in *.
+    apply (prop_code_spec e (sfs st) [rec_updaters paths new] _ _ Hv) in Hb. rewrite Hb. cbn [Z.eqb]. exact IH.
 Qed.
 
 (* ---------- what is false of the faithful model ---------- *)
